@@ -180,6 +180,8 @@ def random_universe(rnd):
     uni = {}
     mods = [N, '0.001', '0.002', rstr(Fraction('0.001') * (1 + Fraction(1, 10**6)))]
     ts = [Fraction(rnd.uniform(0.02, 0.2)).limit_denominator(10**6) for _ in range(2)]
+    if rnd.random() < 0.2:
+        ts[0] = Fraction(0)                    # a helical gear whose helix angle is exactly 0
     alphas = ['14.5', '20', '25', '30']
     uni['M'] = {'kind': 'DCMotor', 'teeth': 0, 'module': N, 'th': N, 'alpha': N, 'name': 'M'}
     uni['F'] = {'kind': 'Flywheel', 'teeth': 0, 'module': N, 'th': N, 'alpha': N, 'name': 'F'}
@@ -366,7 +368,7 @@ ASM = ('Assemble', 'Powertrain')
 
 def run_C10(tier, seed):
     return _run('C10', tier, seed, lambda c: not c.startswith(ASM),
-                'spec->code: every single declaration call over the 16-object universe of MC_Relations x every argument class (exhaustive), '
+                'spec->code: every single declaration call over the 17-object universe of MC_Relations x every argument class (exhaustive), '
                 'deeper call sequences enumerated/simulated by TLC, each replayed on fresh real objects; code->spec: seeded random universes '
                 '(teeth, modules, helix and pressure angles in random units, real-valued efficiency/friction in and out of range, non-numbers) with random '
                 'call sequences incl. failing ones; after EVERY call all objects\' public relation attributes are re-read and TLC validates them against Relations.tla')
